@@ -107,6 +107,8 @@ type fakeConn struct {
 	writeTimeout bool // the write deadline expired (until a new deadline is set)
 	closed       bool
 	closeErr     bool // Close() closes the connection but reports an error (as a TLS close_notify can)
+	partialWT    bool // a write that runs into its deadline reports partial progress (n > 0 with the timeout error)
+	noReadDl     bool // SetReadDeadline is refused (a connection that is already dead when the session gets it)
 	closeCount   int
 	peerReads    bool
 	received     []byte
@@ -158,6 +160,12 @@ func (c *fakeConn) Write(p []byte) (int, error) {
 			return 0, c.writeErr
 		}
 		if c.writeTimeout {
+			if c.partialWT && len(p) > 1 {
+				// the deadline expired after part of the buffer had gone out
+				n := 1 + len(p)/3
+				c.received = append(c.received, p[:n]...)
+				return n, timeoutErr{}
+			}
 			return 0, timeoutErr{}
 		}
 		if c.peerReads {
@@ -199,6 +207,10 @@ func (c *fakeConn) SetDeadline(t time.Time) error {
 }
 func (c *fakeConn) SetReadDeadline(t time.Time) error {
 	c.mu.Lock()
+	if c.noReadDl {
+		c.mu.Unlock()
+		return errDeadline
+	}
 	c.readTimeout = false // a new deadline is armed: an earlier expiry no longer applies
 	c.rdl = t
 	c.cond.Broadcast()
@@ -255,6 +267,7 @@ func (c *fakeConn) snapshot() (received []byte, closeCount int, blocked int) {
 // ---------------------------------------------------------------- handler
 
 var errHandler = errors.New("handler: bad frame")
+var errDeadline = errors.New("fake conn: use of closed network connection (set deadline)")
 
 type handler struct {
 	mu       sync.Mutex
@@ -369,11 +382,21 @@ func faultCase(k *engine.Case) {
 	for i := 0; i < ns; i++ {
 		x := &sess{id: i, peerReads: r.Intn(4) != 0}
 		x.conn = newFakeConn(i, x.peerReads, clk)
+		if r.Intn(3) == 0 {
+			x.conn.partialWT = true
+		}
 		if r.Intn(5) == 0 {
 			x.conn.closeErr = true
 			k.Count("sessions_whose_conn_close_reports_error", 1)
 		}
-		if r.Intn(2) == 0 {
+		if r.Intn(10) == 0 {
+			// dead on arrival: the first read deadline cannot be armed. The session has to end
+			// like any other: one exit callback, connection closed, count back
+			x.conn.noReadDl = true
+			x.ended = true
+			k.Count("sessions_dead_on_arrival", 1)
+		}
+		if r.Intn(2) == 0 && !x.conn.noReadDl {
 			mgr.Do(x.conn)
 		} else {
 			x.s = stcp.NewSession(mgr, x.conn)
